@@ -108,6 +108,7 @@ type storeFault struct {
 	failInsertN int // fail the n-th insert (1-based); 0 = never
 	inserts     int
 	failUpdate  bool // the live store refuses the next swap before anything is moved
+	failSigner  bool // the staging store refuses the signer record (the last write that fills it)
 	// monitor of the live store: lookups inside it, and a gate that keeps them inside
 	inside    int
 	holdReads chan struct{} // non-nil: lookups wait inside the store until it is closed
@@ -175,6 +176,17 @@ func (s *faultStore) InsertRevokedCert(e *crlreader.CRLEntry) error {
 		return fmt.Errorf("verif: injected insert error at entry %d", s.f.failInsertN)
 	}
 	return s.CRLStore.InsertRevokedCert(e)
+}
+
+func (s *faultStore) UpdateSignatureCertificate(e *core.CertificateChainEntry) error {
+	s.f.mu.Lock()
+	fail := s.f.failSigner
+	s.f.failSigner = false
+	s.f.mu.Unlock()
+	if fail {
+		return fmt.Errorf("verif: injected error when the signer record is written")
+	}
+	return s.CRLStore.UpdateSignatureCertificate(e)
 }
 
 // Update must hand the unwrapped store to the real implementation (it type-asserts its argument).
